@@ -61,9 +61,9 @@ def ensure_overrides():
         raise Infra("javac failed: " + r.stderr)
 
 
-def build_harness(race=False, pkg=".", name="harness", goarch=None):
+def build_harness(race=False, pkg=".", name="harness", goarch=None, tags=None):
     """go build the harness against REPO's current working tree, hooks enabled."""
-    out = os.path.join(scratch("verif-bin-"), name + (goarch or ""))
+    out = os.path.join(scratch("verif-bin-"), name + (goarch or "") + (tags or ""))
     hdir = os.path.join(V, "harness")
     work = hdir
     if REPO != "/repo":  # self-test against a scratch copy: private module copy with its own replace
@@ -75,7 +75,7 @@ def build_harness(race=False, pkg=".", name="harness", goarch=None):
         shutil.copy(os.path.join(REPO, "go.sum"), os.path.join(work, "go.sum"))
     except OSError:
         pass
-    cmd = ["go", "build", "-tags", "verif"] + (["-race"] if race else []) + ["-o", out, pkg]
+    cmd = ["go", "build", "-tags", "verif" + ("," + tags if tags else "")] + (["-race"] if race else []) + ["-o", out, pkg]
     r = subprocess.run(cmd, cwd=work, env=dict(GOENV, GOARCH=goarch, CGO_ENABLED="0") if goarch else GOENV, capture_output=True, text=True)
     if r.returncode != 0:
         raise Infra("harness build failed (does /repo compile with -tags verif?):\n" + r.stderr[-3000:])
@@ -153,7 +153,23 @@ def run_harness(binary, args, timeout=1800, env_extra=None):
         env.update(env_extra)
     r = subprocess.run(["timeout", str(timeout), binary] + args, capture_output=True, text=True, env=env)
     if r.returncode != 0:
-        raise Infra("harness %s failed rc=%d: %s" % (" ".join(args[:4]), r.returncode, r.stderr[-2000:]))
+        # a harness process that the Go runtime ended inside the library (a panic on a goroutine the library started,
+        # unsynchronised map access, out of memory in a library frame) is behaviour of the real code: recorded as a
+        # Crash event at the end of what the process had written; anything else is infrastructure trouble
+        lib = "github.com/islishude/bip39." in r.stderr and ("fatal error" in r.stderr or "panic:" in r.stderr)
+        out = args[args.index("-out") + 1] if "-out" in args else None
+        if lib and out:
+            lines = read_trace(out) if os.path.exists(out) else []
+            if lines and not lines[-1].endswith("\n"):
+                lines = lines[:-1]
+            if not lines:
+                lines = [json.dumps({"op": "Reset", "fresh_process": True, "seed": 0, "tier": "quick", "prop": ""}, separators=(",", ":")) + "\n"]
+            lines.append(json.dumps({"op": "Crash", "panicked": True, "timeout": False, "conc": True,
+                                     "panic": [ord(c) for c in r.stderr[:1200] if ord(c) < 0x110000]}) + "\n")
+            with open(out, "w") as f:
+                f.writelines(lines)
+            return r
+        raise Infra("harness %s failed rc=%d: %s" % (" ".join(args[:4]), r.returncode, r.stderr[:600] + " ... " + r.stderr[-1200:]))
     return r
 
 
